@@ -20,7 +20,6 @@ package bufcas
 //
 //@ trusted pure interface FileNode
 //@ trusted pure interface Digest
-//@ trusted pure func DigestEqual(a, b) (r)
 // digest strings are canonical, contain no blank, and parse back to a digest with the same string (trusted; digest.go uses encoding/hex)
 //@ trusted pure func ParseDigest(s) (d, err)
 //@   ensures canonicalDigest(s) ==> err == nil && d != nil && d.String() == s
